@@ -329,6 +329,16 @@ pub fn channel(rng: &mut StdRng, family: &str, bps: usize, n: usize) -> Vec<i32>
                 *x = rng.gen_range(-a..=a) as i32;
             }
         }
+        "fullsine" => {
+            // exact full-scale sinusoid: predictors overshoot the sample range (sum of products beyond
+            // bits_per_sample + shift bits)
+            let period = FULLSINE_PERIODS[FULLSINE_PICK.with(|p| p.get()) % FULLSINE_PERIODS.len()];
+            let _ = rng.gen_range(0..8);
+            let max = hi as f64;
+            for (t, x) in v.iter_mut().enumerate() {
+                *x = ((t as f64 * 2.0 * std::f64::consts::PI / period).sin() * max) as i32;
+            }
+        }
         "wrap32" => {
             // The folded samples (= Rice quotients at parameter 0 under the order-0 predictor) add up to
             // 2^32 + delta: 32-bit accumulators of coded sizes wrap to a tiny value.  Needs 20/24 bit.
@@ -407,6 +417,13 @@ pub fn channel(rng: &mut StdRng, family: &str, bps: usize, n: usize) -> Vec<i32>
         _ => panic!("unknown family {family}"),
     }
     v
+}
+
+pub const FULLSINE_PERIODS: [f64; 12] = [20.0, 36.0, 8.0, 3.3, 50.0, 7.0, 12.5, 100.0, 24.0, 16.0, 30.0, 5.0];
+thread_local! {
+    /// which period the next "fullsine" channel uses (set by the case generator, so that the periods are
+    /// covered systematically and not by chance)
+    pub static FULLSINE_PICK: std::cell::Cell<usize> = const { std::cell::Cell::new(0) };
 }
 
 /// Bits of the Rice-coded residual `res` (no warm-up) for every partition order 0..=max with
